@@ -238,7 +238,14 @@ struct PsHarness : Harness {
         bool guards_intact(Bytes &ref) { return bytes_eq(med.mem.data(), ref.data(), GUARD) && bytes_eq(med.mem.data() + GUARD + med.region, ref.data() + GUARD + med.region, GUARD); }
         uint64_t budget() const { return 6 * (cf.N + cf.cks()) + 64; }
     };
-    static Bytes op_data(const Json &o, size_t n) { Bytes d(n); uint64_t s = (uint64_t)o.geti("salt"); for (size_t i = 0; i < n; ++i) d[i] = (uint8_t)(stream_octet(s * 131 + i) ^ 0x77); return d; }
+    static Bytes op_data(const Json &o, size_t n) {
+        Bytes d(n); uint64_t s = (uint64_t)o.geti("salt");
+        // special images now and then: all zero / all ones (checksums 0x0000 and other degenerate values), else a salted pattern
+        if (s % 16 == 0) return Bytes(n, 0x00);
+        if (s % 16 == 1) return Bytes(n, 0xff);
+        for (size_t i = 0; i < n; ++i) d[i] = (uint8_t)(stream_octet(s * 131 + i) ^ 0x77);
+        return d;
+    }
     static const char *acc_name(PersistentAccess a) {
         switch (a) { case PERSISTENT_ACCESS_SUCCESS: return "SUCCESS"; case PERSISTENT_ACCESS_INVALID_DATA: return "INVALID_DATA"; case PERSISTENT_ACCESS_IO_ERROR: return "IO_ERROR"; case PERSISTENT_ACCESS_ADDRESS_OUT_OF_RANGE: return "ADDRESS_OUT_OF_RANGE"; }
         return "?";
